@@ -74,7 +74,7 @@ func C05(c *core.Ctx) {
 		tuples = append(tuples, t)
 	}
 	sort.Slice(tuples, func(i, j int) bool { return js(tuples[i]) < js(tuples[j]) })
-	behs, labels, ok := extGenerate(c, depth, true, walks, wd)
+	behs, labels, ok := extGenerate(c, depth, true, walks, wd, true)
 	if !ok {
 		return
 	}
@@ -171,6 +171,9 @@ func C05(c *core.Ctx) {
 		sig := "ext4-fsck-after-" + strings.ToLower(a)
 		if a == "Reset" {
 			sig = "ext4-fsck-after-create-" + strings.ReplaceAll(fmt.Sprintf("spb%d-%s", goodJobs[bi].cfg.SPB, goodJobs[bi].cfg.Extra), ",", "+")
+		}
+		if a == "Truncate" && strings.Contains(str(ev, "fscktext"), "i_size is") && strings.Contains(str(ev, "fscktext"), ", should be") {
+			sig = "ext4-truncate-keeps-blocks-beyond-new-size"
 		}
 		if a == "Debugfs" && ev["fsck"] == 0 {
 			sig = "ext4-debugfs-content-differs"
